@@ -458,6 +458,7 @@ theorem step_coherent (F : Fns α) (st : State α) (op : Op α) (h : Coherent F 
   | setNoise v => exact doSetNoise_coherent F st v h
   | setW w => exact setW_coherent F st w h
   | readLayout => exact h
+  | query => exact h
   | stackData x xe => exact h
   | readPL => exact h
   | readNoiseVar => exact h
@@ -608,6 +609,7 @@ def Op.isRead : Op α → Bool
   | .corrupt _ _ _ => true
   | .readLayout | .readPL | .readBigWView | .readNoiseVar | .readLastNoise | .corruptCat _ _ => true
   | .stackData _ _ => true
+  | .query => true
   | _ => false
 
 theorem sameInputs_spec (F : Fns α) {a b : State α} (h : SameInputs a b) :
@@ -692,6 +694,7 @@ theorem read_sameInputs (F : Fns α) (st : State α) (op : Op α) (hr : op.isRea
       · exact tr (finishCorrupt_same F _ _ _) hB
       · exact hB
   | readLayout => exact triv
+  | query => exact triv
   | stackData x xe => exact triv
   | readPL => exact triv
   | readNoiseVar => exact triv
@@ -923,6 +926,7 @@ theorem step_wellShaped (F : Fns α) (st : State α) (op : Op α) (h : WellShape
   | readHNoExt => exact wellShaped_of_same (read_sameInputs F st _ rfl) h
   | corrupt x xe noise => exact wellShaped_of_same (read_sameInputs F st _ rfl) h
   | readLayout => exact wellShaped_of_same (read_sameInputs F st _ rfl) h
+  | query => exact wellShaped_of_same (read_sameInputs F st _ rfl) h
   | stackData x xe => exact wellShaped_of_same (read_sameInputs F st _ rfl) h
   | readPL => exact wellShaped_of_same (read_sameInputs F st _ rfl) h
   | readBigWView => exact wellShaped_of_same (read_sameInputs F st _ rfl) h
@@ -1108,6 +1112,7 @@ theorem step_isExt (F : Fns α) (st : State α) (op : Op α) : (step Cfg.fixed F
     | readHNoExt => simp [Op.isRead] at hr
     | corrupt x xe noise => simp [Op.isRead] at hr
     | readLayout => simp [Op.isRead] at hr
+    | query => simp [Op.isRead] at hr
     | stackData x xe => simp [Op.isRead] at hr
     | readPL => simp [Op.isRead] at hr
     | readBigWView => simp [Op.isRead] at hr
@@ -1194,6 +1199,7 @@ theorem opOK_of_opOKb (st : State α) (op : Op α) (h : opOKb st op = true) : Op
   | readHNoExt => simp [OpOK]
   | corrupt x xe noise => simp [OpOK]
   | readLayout => simp [OpOK]
+  | query => simp [OpOK]
   | stackData x xe => simp [OpOK]
   | readPL => simp [OpOK]
   | readBigWView => simp [OpOK]
@@ -1298,6 +1304,7 @@ theorem step_err_unchanged (F : Fns α) (st : State α) (op : Op α) (e : Proto.
     | readH => exact hH
     | readHkl k l => exact hH
     | readLayout => rfl
+    | query => rfl
     | stackData x xe => rfl
     | readPL => rfl
     | readNoiseVar => rfl
@@ -1414,6 +1421,7 @@ theorem step_err_unchanged (F : Fns α) (st : State α) (op : Op α) (e : Proto.
     | readHNoExt => simp [Op.isRead] at hr
     | corrupt x xe noise => simp [Op.isRead] at hr
     | readLayout => simp [Op.isRead] at hr
+    | query => simp [Op.isRead] at hr
     | stackData x xe => simp [Op.isRead] at hr
     | readPL => simp [Op.isRead] at hr
     | readBigWView => simp [Op.isRead] at hr
